@@ -183,6 +183,8 @@ def sites(root):
                 out.append((v, "data:element"))
                 out.append((v, "data:dtype-same-bytes"))
                 out.append((v, "data:shape-same-bytes"))
+                if v.data.dtype.itemsize > 1:
+                    out.append((v, "data:byteorder-same-bytes"))
                 if v.data.ndim >= 2 and not v.data.flags.c_contiguous:
                     out.append((v, "data:memory-bytes-same"))
     return out
@@ -366,6 +368,13 @@ def mutate_site(root, node, fname, rng, counter):
             if tgt is None or d.size == 0:
                 raise Ineffective("no same-size dtype")
             nd = np.ascontiguousarray(d).view(tgt).copy()
+        elif fname == "data:byteorder-same-bytes":
+            # the same bytes read in the other byte order ('<i4' vs '>i4'):
+            # dtype.name is the same, the values are not
+            if d.size == 0:
+                raise Ineffective("empty data")
+            nd = np.ascontiguousarray(d).view(d.dtype.newbyteorder()).copy()
+            assert nd.tobytes() == np.ascontiguousarray(d).tobytes()
         elif fname == "data:memory-bytes-same":
             # another logical array whose C-order bytes are this array's bytes
             # in MEMORY order (a key built from memory-order bytes collides)
